@@ -160,9 +160,11 @@ def parseMd (j : Json) : Except String Metadata := do
     pure (← (a[0]?.getD Json.null).getStr?, ← (a[1]?.getD Json.null).getStr?))
 
 def parseCfg (j : Json) : Except String AuthCfg := do
-  let kind ← match fld j "custom" with
-    | .null => pure ProviderKind.basic
-    | md => do pure (ProviderKind.custom (← parseMd md))
+  let kind ← match (getStr j "kind").toOption, fld j "custom" with
+    | some "unloadable", _ => pure ProviderKind.unloadable
+    | some "not_a_provider", _ => pure ProviderKind.notAProvider
+    | _, .null => pure ProviderKind.basic
+    | _, md => do pure (ProviderKind.custom (← parseMd md))
   pure ⟨← getOptStr j "provider", kind, ← getOptStr j "username", ← getOptStr j "password"⟩
 
 def parseOp (j : Json) : Except String Op :=
@@ -266,7 +268,7 @@ def handle (j : Json) : Except String Json := do
         | .push _ =>
           let d := decSnapshot bs
           Json.mkObj [("decoded", optJ snapshotJ d), ("reencoded", optJ (fun m => Json.str (toHex (encRecs (encSnapshot m)))) d)])
-    pure (Json.mkObj [("wire", Json.arr ((run c (fun i => decide (i < k)) ⟨none, 0⟩ ops).map wireJ).toArray),
+    pure (Json.mkObj [("wire", Json.arr ((runCfg c (fun i => decide (i < k)) ⟨none, 0⟩ ops).map wireJ).toArray),
                       ("expected", mdJ (some (expectedMetadata c))), ("bytes", Json.arr bytesJ.toArray)])
   | "auth_conc" =>
     let c ← parseCfg (← j.getObjVal? "cfg")
